@@ -1182,6 +1182,17 @@ class Evaluator:
             x, y = a.expr, b.expr
             if x is sp.nan or y is sp.nan:
                 return BoolV(isinstance(op, ast.NotEq))     # IEEE: every ordered comparison with NaN is false
+            if isinstance(op, (ast.Lt, ast.LtE, ast.Gt, ast.GtE)):
+                # astropy refuses to order a dimensional Quantity against a bare number (other than 0, inf, nan) or against a
+                # Quantity of another dimension
+                try:
+                    da_, db_ = self.ext.dim_of(sp.sympify(x)), self.ext.dim_of(sp.sympify(y))
+                except Exception:
+                    da_ = db_ = None
+                if da_ is not None and db_ is not None and da_ != db_:
+                    bare = y if not db_ else x if not da_ else None
+                    if bare is None or not (bare == 0 or bare in (sp.oo, -sp.oo, sp.nan)):
+                        raise Raised("UnitConversionError", node, f"ordering comparison between dimension {da_ or 'dimensionless'} and {db_ or 'dimensionless'}")
             rel = {ast.Eq: sp.Eq, ast.NotEq: sp.Ne, ast.Lt: sp.Lt, ast.LtE: sp.Le, ast.Gt: sp.Gt, ast.GtE: sp.Ge}[type(op)]
             try:
                 r = rel(x, y)
